@@ -49,7 +49,8 @@ def classify(res):
         for pat, cls in MSG_CLASS:
             if pat in msg:
                 return "perr:" + cls
-        return "perr:other(%s:%s)" % (parts[1], msg[:60])
+        # any other rejection: a text the parser refuses for a reason that has nothing to do with permissions
+        return "perr:syntax"
     return res
 
 
@@ -121,6 +122,21 @@ class Builder:
     def flag(self, k):
         self.add("istrusted %d" % k, "istrusted:%d" % k, "flag")
 
+    def traceflag(self, k):
+        self.add("istrace %d" % k, "istrace:%d" % k, "flag")
+
+    def settrace(self, k, b):
+        self.add("settrace %d %d" % (k, b), "settrace:%d:%d" % (k, b))
+
+    def trust(self, k, b):
+        self.add("trust %d %d" % (k, b), "trust:%d:%d" % (k, b))
+
+    def purge(self, k):
+        self.add("purge %d" % k, "purge:%d" % k)
+
+    def free(self, k):
+        self.add("free %d" % k, "free:%d" % k)
+
     def loaded(self, name):
         self.add("loaded %s" % hx(name), "loaded:" + name, "flag")
 
@@ -131,6 +147,139 @@ def ctor_text(spell, mod, form="arg"):
     name = {"vmod": mod, "VMOD": mod.upper(), "Vmod": mod.capitalize()}[spell]
     arg = "" if form == "noarg" else ('";"' if mod == "csv" else "1")
     return name, "XO = %s(%s);" % (name, arg)
+
+
+# ---------------------------------------------------------------- host histories (the whole host surface)
+# one letter = one host event on the CURRENT context (the latest clone after `W`)
+EVENTS = {
+    "G": "grant the module", "R": "clear the permissions", "P": "purge", "C": "clone", "W": "switch to the latest clone",
+    "F": "free the current context (another one takes over)", "E": "a text the parser rejects", "X": "a run-time error",
+    "Y": "constructor then run-time error in one program", "T": "trace statement", "S": "trace switch of the host",
+    "U": "constructor at top level + run", "D": "define a function containing the constructor", "K": "call that function",
+    "I": "include a file containing the constructor", "Q": "import by path", "N": "import by name",
+    "O": "run again the last executable compiled for a constructor (compiled before whatever happened since)",
+    "t": "Context::trusted(true)", "u": "Context::trusted(false)", "M": "a brand-new untrusted context takes over",
+}
+
+
+class History:
+    """builds one host history (probe ops + model words) and the expectations that follow from the PROPERTY alone:
+    the trusted bit of every context after every event (only `t`/`u` on that context change it, a clone inherits it), the
+    refusals an untrusted context must get"""
+
+    def __init__(self, b, mod, path, base, api):
+        self.b, self.mod, self.path, self.base, self.api = b, mod, path, base, api
+        self.trusted = {}        # ctx -> bool (what the property says it must be)
+        self.capi = {}
+        self.hist = {}           # ctx -> tuple of compile ids (symbol-table lineage)
+        self.granted = False
+        self.last_exe = None     # (x, home ctx, lineage after its compile)
+        self.expect = []
+        self.ncomp = 0
+        self.clones = []
+        self.cur = self.new(base)
+
+    def new(self, trust):
+        k = self.b.new(trust)
+        self.trusted[k] = trust in ("t", "u2t")
+        self.capi[k] = trust == "capi"
+        self.hist[k] = ()
+        return k
+
+    def live(self):
+        return sorted(self.trusted)
+
+    def compile(self, text, prog, ctor=False, refusal=None, run=True):
+        k = self.cur
+        x = self.b.compile(k, text, prog)
+        opi = len(self.b.ops) - 1
+        self.ncomp += 1
+        self.hist[k] = self.hist[k] + (self.ncomp,)
+        if refusal and not self.trusted[k]:
+            self.expect.append(("parse", opi, refusal))
+        if ctor and not self.trusted[k] and not self.granted:
+            self.expect.append(("noobject", opi, None))
+        if run:
+            self.b.run(x, k)
+        return x
+
+    def event(self, e):
+        """returns False when the event does not apply in the current state (the sequence is dropped)"""
+        b, k, mod = self.b, self.cur, self.mod
+        ctor = "XO = %s(1);" % mod
+        if e == "G":
+            b.unban(mod, self.api); self.granted = True
+        elif e == "R":
+            b.clear(self.api); self.granted = False
+        elif e == "P":
+            b.purge(k); self.hist[k] = ()
+        elif e == "C":
+            if len(self.trusted) >= 6:
+                return False
+            j = b.clone(k)
+            self.trusted[j] = self.trusted[k]; self.capi[j] = self.capi[k]; self.hist[j] = self.hist[k]
+            self.clones.append(j)
+        elif e == "W":
+            live = [j for j in self.clones if j in self.trusted and j != k]
+            if not live:
+                return False
+            self.cur = live[-1]
+        elif e == "F":
+            others = [j for j in self.live() if j != k]
+            if not others:
+                return False
+            b.free(k)
+            del self.trusted[k]
+            if self.last_exe and self.last_exe[1] == k:
+                self.last_exe = None
+            self.cur = others[-1]
+        elif e == "E":
+            self.compile("XO = ;", "bad", run=False)
+        elif e == "X":
+            self.compile("raise BOOM;", "raise")
+        elif e == "Y":
+            self.compile(ctor + "\nraise BOOM;", "c.%s;raise" % mod, ctor=True)
+        elif e == "T":
+            self.compile("trace true;", "tr.1")
+        elif e == "S":
+            b.settrace(k, 1)
+        elif e == "U":
+            x = self.compile(ctor, "c." + mod, ctor=True)
+            self.last_exe = (x, k, self.hist[k])
+        elif e == "D":
+            self.compile("function FF() return integer is begin %s return 1; end;" % ctor, "f.FF(c.%s)" % mod, ctor=True, run=False)
+        elif e == "K":
+            self.compile("ZZ = FF();", "call.FF")
+        elif e == "I":
+            fname, fpath = b.mkfile(ctor + "\n", "c." + mod)
+            self.compile('include "%s";' % fpath, "inc." + fname, ctor=True, refusal="perr:restricted-include")
+        elif e == "Q":
+            self.compile('import "%s";' % self.path, "ip.P_" + mod, refusal="perr:restricted-path", run=False)
+        elif e == "N":
+            self.compile("import %s;" % mod, "in." + mod, run=False)
+        elif e == "O":
+            le = self.last_exe
+            if not le or le[1] not in self.trusted or self.hist[k][:len(le[2])] != le[2]:
+                return False
+            b.run(le[0], k)
+        elif e in ("t", "u"):
+            if self.capi[k]:
+                return False
+            b.trust(k, 1 if e == "t" else 0)
+            self.trusted[k] = e == "t"
+        elif e == "M":
+            if len(self.trusted) >= 6:
+                return False
+            self.cur = self.new("capi" if self.base == "capi" else "u")
+        else:
+            raise ValueError(e)
+        # after EVERY event: the trusted bit of every live context, as the property says it must be
+        for j in self.live():
+            b.flag(j)
+            self.expect.append(("flag", len(b.ops) - 1, "t=1" if self.trusted[j] else "t=0"))
+        if e in ("P", "C", "S", "T"):
+            b.traceflag(self.cur)
+        return True
 
 
 class C16(VmodCheck):
@@ -148,7 +297,17 @@ class C16(VmodCheck):
             "property is also evaluated directly on the implementation's answers; every history ends with the host clearing "
             "the permissions and a brand-new untrusted context attempting the constructor (must be refused). distinct = history text.")
     trusted_base = VmodCheck.trusted_base + ["harness/vmod (event log of the verification module)"]
-    EXTRA_FINDINGS = []
+    EXTRA_FINDINGS = [
+        {"property": "C16", "id": "C16.deinit_reassigns_type_ids", "status": "known",
+         "site": "blocc/plugin_manager.cpp PluginManager::destroy / registerModule; blocc/expression_complex_ctor.cpp (a compiled constructor keeps the numeric type id)",
+         "what": "bloc_deinit_plugins() in the middle of a session (the header says it SHOULD be called on program exit, nothing enforces it) "
+                 "deletes the PluginManager: the grant list is forgotten and the module type ids are handed out again from 1. An executable or "
+                 "function body compiled before keeps the numeric id of the module it was compiled for: if another module is imported first "
+                 "afterwards (any context may import by name), running the old constructor creates an object of THAT module - in an untrusted "
+                 "context, although that module was never granted (with the argument list and constructor number of the other module)",
+         "witness": "bloc_unban_plugin(\"vmod\"); untrusted ctx: import vmod; x = parse(\"XO = vmod(1);\"); bloc_deinit_plugins(); other ctx: import vmod2; execute(x) -> an object of vmod2",
+         "why_recorded": "C16 says an untrusted context can create an object of a module only if the host granted that module by name; here the host granted vmod and the script obtains a vmod2 object. Needs a host that calls bloc_deinit_plugins mid-session and keeps executables."},
+    ]
 
     def gen_cases(self):
         self.stats["exhaustive"] = True
@@ -246,13 +405,89 @@ class C16(VmodCheck):
             meta = {"trust": trust, "grant": grant, "preload": preload, "place": place, "import": imp, "spell": spell,
                     "mod": mod, "api": api, "kinds": b.kinds, "expect": expect}
             cases.append(Case(cid, "perm " + " ".join(b.files + b.words), "|".join(b.ops), meta))
-        self.stats["cases"] = n
+        self.stats["product_cases"] = n
+        cases += self.history_cases(tmpdir, info)
+        # bloc_deinit_plugins in mid-session (not in the model's alphabet: evaluated on the library's answers alone)
+        for first, cid in (("vmod2", "d1"), ("vmod", "d2")):
+            ops = ["plugreset", "unban api %s" % hx("vmod"), "capinew 0", "capiparse 0 0 %s" % hx("import vmod;\n"),
+                   "capiparse 0 1 %s" % hx("XO = vmod(1);\n"), "deinit", "capinew 1", "capiparse 1 2 %s" % hx("import %s;\n" % first),
+                   "banned %s" % hx("vmod2"), "run 1 0", "vlog", "free 0", "free 1", "vlog"]
+            cases.append(Case(cid, "", "|".join(ops), {"family": "deinit", "first": first, "mod": "vmod", "kinds": [], "expect": []}))
+        self.stats["cases"] = len(cases)
+        return cases
+
+    def history_cases(self, tmpdir, info):
+        """host histories over the whole alphabet EVENTS: every sequence of two events (thorough: three) from each start
+        {C++ untrusted, C++ trusted, C API} x {nothing granted, module granted and imported}, plus seeded random longer
+        ones; each ends with a constructor attempt in the current context and in a brand-new untrusted one"""
+        quick = self.tier == "quick"
+        letters = sorted(EVENTS)
+        seqs = [()] + [(a,) for a in letters] + list(itertools.product(letters, repeat=2))
+        if not quick:
+            seqs += list(itertools.product(letters, repeat=3))
+        nrand = 1200 if quick else 6000
+        for _ in range(nrand):
+            seqs.append(tuple(self.rng.choice(letters) for _ in range(self.rng.randint(3, 7))))
+        cases, n, dropped = [], 0, 0
+        hist_len, ev_count = {}, {}
+        for seq in seqs:
+            for base in ("u", "t", "capi"):
+                for start in ("bare", "granted"):
+                    if len(seq) > 2 and quick and self.rng.random() < 0.5:
+                        continue
+                    cid = "h%d" % (n + 1)
+                    b = Builder(cid, info, tmpdir)
+                    api = "api" if base == "capi" or n % 2 else "cpp"
+                    h = History(b, "vmod", info["vmod_path"], base, api)
+                    ok = True
+                    if start == "granted":
+                        ok = h.event("G") and h.event("N")
+                    for e in seq:
+                        if not ok:
+                            break
+                        ok = h.event(e)
+                    if not ok:
+                        dropped += 1
+                        continue
+                    # the end of every history: a constructor attempt where we are, then the host revokes everything and a
+                    # brand-new untrusted context tries
+                    h.event("N")
+                    h.event("U")
+                    h.event("R")
+                    h.event("M")
+                    h.event("U")
+                    n += 1
+                    hist_len[len(seq)] = hist_len.get(len(seq), 0) + 1
+                    for e in seq:
+                        ev_count[e] = ev_count.get(e, 0) + 1
+                    meta = {"family": "history", "seq": "".join(seq), "base": base, "start": start, "mod": "vmod",
+                            "kinds": b.kinds, "expect": h.expect}
+                    cases.append(Case(cid, "perm " + " ".join(b.files + b.words), "|".join(b.ops), meta))
+        self.stats["history_cases"] = n
+        self.stats["history_dropped_inapplicable"] = dropped
+        self.stats["history_length_distribution"] = {str(k): v for k, v in sorted(hist_len.items())}
+        self.stats["history_event_distribution"] = dict(sorted(ev_count.items()))
+        self.stats["history_alphabet"] = EVENTS
         return cases
 
     def case_timeout(self):
         return 20
 
     def judge(self, c, iraw, m, stderr):
+        if c.meta.get("family") == "deinit":
+            self.distinct.add(c.impl_line)
+            parts = iraw.split("|")
+            made = [l.split(" ")[1].split("#")[0] for p in parts if p.startswith("log=") for l in p[4:].split("~") if l.startswith("C ")]
+            d = self.stats.setdefault("deinit_outcomes", {})
+            key = "first=%s:created=%s" % (c.meta["first"], ",".join(made) or "-")
+            d[key] = d.get(key, 0) + 1
+            if iraw.startswith("crash ") or iraw.endswith("diverges"):
+                return self.record_violation("the library crashed after bloc_deinit_plugins", c, iraw, m, stderr)
+            if "vmod2" in made:
+                # vmod2 was never granted: the property is violated; recorded finding
+                if not self.hit("C16.deinit_reassigns_type_ids", c, iraw):
+                    self.record_violation("an untrusted context obtained an object of a module that was never granted (after bloc_deinit_plugins)", c, iraw, m, stderr)
+            return
         if iraw.startswith("crash ") or iraw.endswith("diverges"):
             self.tally(c, iraw, m)
             self.record_violation("the library crashed on a permission history", c, iraw, m, stderr)
@@ -263,13 +498,14 @@ class C16(VmodCheck):
             self.record_violation("probe answered %d ops for %d" % (len(parts), len(kinds)), c, iraw, m, stderr)
             return
         seen = []
-        for res, kind in zip(parts, kinds):
+        for i, (res, kind) in enumerate(zip(parts, kinds)):
             if kind == "parse":
                 seen.append(classify(res))
             elif kind == "run":
                 lines = [l for l in res[4:].split("~") if l]
                 mods = [l.split(" ")[1].split("#")[0] for l in lines if l.startswith("C ")]
-                seen.append("run=" + ",".join(mods))
+                # the op before the `vlog` is the `run` itself: a run-time error is part of the compared outcome
+                seen.append("run=" + ",".join(mods) + ("!rerr" if parts[i - 1].startswith("rerr") else ""))
             elif kind == "flag":
                 seen.append(res)
         mouts = (m.get("model") or "").split("|")
@@ -279,7 +515,7 @@ class C16(VmodCheck):
         words = [w for w in c.model_line.split(" ")[1:] if not w.startswith("file:")]
         mseq = []
         for w, o in zip(words, mouts):
-            if w.startswith(("compile:", "run:", "loaded:", "istrusted:")):
+            if w.startswith(("compile:", "run:", "loaded:", "istrusted:", "istrace:")):
                 mseq.append(o)
         # csv objects are not logged by an instrumented module: compare only that the run happened
         if c.meta["mod"] == "csv":
@@ -294,12 +530,24 @@ class C16(VmodCheck):
             d[key] = d.get(key, 0) + 1
         if len(self.samples) < 12 and self.rng.random() < 0.01:
             self.samples.append({"case": c.model_line, "impl": iout, "model": mout})
+        if c.meta.get("family") == "history":
+            hs = self.stats.setdefault("history_samples", [])
+            if len(hs) < 8 and self.rng.random() < 0.01:
+                hs.append({"seq": c.meta["seq"], "base": c.meta["base"], "start": c.meta["start"], "impl": iout[:700], "model": mout[:700]})
+            ho = self.stats.setdefault("history_outcomes", {})
+            for s_ in seen:
+                key = s_ if not s_.startswith("run=") else ("run:objects" if s_.split("!")[0] != "run=" else "run:none") + ("!rerr" if "!rerr" in s_ else "")
+                ho[key] = ho.get(key, 0) + 1
         if "!spec" in mout:
             self.record_violation("the model itself creates an object without permission", c, iout, {"model": mout}, stderr)
             return
         # the property evaluated on the implementation's own answers
         for what, opi, want in c.meta["expect"]:
             res = parts[opi]
+            if what == "flag" and res != want:
+                self.record_violation("the trusted bit of a context changed without the trust setter (history %s: %s expected, %s answered)"
+                                      % (c.meta.get("seq"), want, res), c, iout, {"model": mout, "spec": want}, stderr)
+                return
             if what == "parse" and want.startswith("perr:") and classify(res) != want:
                 self.record_violation("an untrusted context was not refused (%s expected)" % want, c, iout, {"model": mout, "spec": want}, stderr)
                 return
